@@ -169,6 +169,12 @@ def make_plan(seed: int, tier: str, index: int) -> dict[str, Any]:
             ops.append(op)
         clients.append(ops)
     knobs: dict[str, Any] = {}
+    if n_clients == 1 and sub in ("none", "cache_clear", "long", "io") and p.random() < 0.8:
+        # logging state is process history too: some parses happen while the application has
+        # logging switched off (nothing is reported then; the chart is the same)
+        for op in clients[0]:
+            if p.random() < 0.5:
+                op["logging_off"] = True
     if siblings and sub in ("none", "cache_clear", "long") and p.random() < 0.5:
         # disk history: the same path is replaced in place by another text of the same length
         # (and, the simulation having no clock, the same modification time) between two parses
@@ -452,6 +458,7 @@ def execute(plan: dict[str, Any]) -> dict[str, Any]:
             c = corpus[op["text"]]
             plain = {"op": "parse", "text": op["text"], "via": "file", "reader": "stringio",
                      "newline": "\n", "select": op.get("select"),
+                     **({"logging_off": True} if op.get("logging_off") else {}),
                      **({"encoding": "utf-8-sig"} if c.get("bom") else {})}
             if parseop.access_key(plain) != parseop.access_key(op):
                 pref = runner.in_fork(_reference, plain, data_of[op["text"]], timeout=120)
@@ -513,8 +520,13 @@ def execute(plan: dict[str, Any]) -> dict[str, Any]:
             nonlocal n_ops
             for k, op in enumerate(ops):
                 if (ci, k) in clear_at:
+                    import gc
+                    import re
+
                     for c in caches:
                         c.cache_clear()
+                    re.purge()      # the regex module's own cache of compiled patterns
+                    gc.collect()    # finalisers / weak references run now rather than later
                     fired["cache_clear"] = fired.get("cache_clear", 0) + 1
                 key = json.dumps(parseop.access_key(op))
                 ref = refs[key]
@@ -547,6 +559,8 @@ def execute(plan: dict[str, Any]) -> dict[str, Any]:
                     shift_keep[ci] = world.heap_shift(int(op["shift"]))
                 stored_path = fs.path(parseop.stored_name(op, f"c{ci}o{k}") + ".chart")
                 eio_before = fs.eio_raised.count(stored_path)
+                if op.get("logging_off"):
+                    probes["parses_with_logging_off"] = probes.get("parses_with_logging_off", 0) + 1
                 if op.get("slot") is not None:
                     probes["parses_of_a_replaced_path"] = probes.get("parses_of_a_replaced_path", 0) + 1
                 sched.begin_op(client, k, abort)
@@ -779,7 +793,7 @@ def shrink(plan: dict[str, Any]):
     # drop faults / knobs
     for ci, ops in enumerate(clients):
         for k, op in enumerate(ops):
-            for fk in ("abort", "io", "eio", "log_fault", "log_reenter", "sel_fault", "reader_fault", "slot", "select"):
+            for fk in ("abort", "io", "eio", "log_fault", "log_reenter", "sel_fault", "reader_fault", "slot", "logging_off", "select"):
                 if op.get(fk) is not None:
                     op2 = {a: b for a, b in op.items() if a != fk}
                     if fk == "select":
